@@ -31,6 +31,10 @@ def impl_one(args):
         if entry == 'text':
             # CTL objects print in CTL notation (`AX p`), which no parser reads; text entry uses the CTL* notation
             f = str(to_obj(tree, lang('CTLS') if logic == 'CTL' else L))
+        elif entry == 'short':
+            # the same tree built with shorthand operands (str for atoms, bool for constants)
+            from checks.c11 import to_obj_short
+            f = to_obj_short(tree, L)
         elif entry.startswith('obj@'):
             # an object built with the classes of ANOTHER language module
             f = to_obj(tree, lang(entry[4:]))
